@@ -21,7 +21,7 @@ std::vector<std::string> corpus_xml() {
 // grammar-generated synthetic descriptions: <= 7 levels, <= 256 PUs, NUMA as level and/or attached, memory/cache sizes
 std::string gen_synthetic(Rng &g) {
   struct L { const char *name; int pct; };
-  static const L order[] = {{"group", 25}, {"pack", 70}, {"group", 15}, {"die", 25}, {"l3", 40}, {"l2", 30}, {"core", 75}, {"l1", 25}, {"group", 8}};
+  static const L order[] = {{"group", 25}, {"pack", 70}, {"group", 15}, {"die", 25}, {"l3", 40}, {"l2", 30}, {"core", 75}, {"l1", 25}, {"group", 15}};
   std::vector<std::string> lv; unsigned total = 1;
   int numa_mode = (int)g.below(4);   // 0: one attached at root (implicit), 1: a numa level, 2: attached somewhere, 3: attached at two places
   std::vector<int> chosen; for (int i = 0; i < 9; i++) if ((int)g.below(100) < order[i].pct) chosen.push_back(i);
